@@ -1069,8 +1069,11 @@ func (r *Reader) DocumentWithOptions(opts ExtractOptions) (*model.Document, erro
 			if elem.Table != nil && len(elem.Table.Rows) > 0 {
 				numRows := len(elem.Table.Rows)
 				numCols := 0
-				if numRows > 0 {
-					numCols = len(elem.Table.Rows[0])
+				for _, row := range elem.Table.Rows {
+					// rows may differ in length (column spans): size the grid by the longest
+					if len(row) > numCols {
+						numCols = len(row)
+					}
 				}
 
 				modelTable := model.NewTable(numRows, numCols)
